@@ -87,6 +87,14 @@ def f_saturation_grey : Family :=
   { name := "saturation_grey", unit := "saturation", kind := .frac, keys := [[]], nOut := fun _ => 4, nRaw := fun _ => 16, isPlain := false,
     post := fun _ o r => sumE ((List.range 4).map fun c => .mul (o (c * 4 + r)) (greyIn c)),
     spec := fun _ r => if r = 3 then v 2 else .mul (v 1) (.add (v 0) (.mul (.sub one (v 0)) wsum)) }
+/-- `saturation(s, colour)` (vec3 and vec4 overloads) = `saturation(s) · colour`: channel `j` is `s·c_j + (1 − s)(w_r c_r + w_g c_g + w_b c_b)`, alpha is passed
+    through.  Variable 0 = `s`, then the colour. -/
+def satLum : E := .add (.add (.mul w0 (v 1)) (.mul w1 (v 2))) (.mul w2 (v 3))
+def f_saturation3 : Family :=
+  { name := "saturation3", kind := .frac, keys := [[]], nOut := fun _ => 3, spec := fun _ j => .add (.mul (v 0) (v (1 + j))) (.mul (.sub one (v 0)) satLum) }
+def f_saturation4 : Family :=
+  { name := "saturation4", kind := .frac, keys := [[]], nOut := fun _ => 4,
+    spec := fun _ j => if j = 3 then v 4 else .add (.mul (v 0) (v (1 + j))) (.mul (.sub one (v 0)) satLum) }
 /-- `luminosity(c) = 0.33 r + 0.59 g + 0.11 b` (the documented weights) -/
 def f_luminosity : Family :=
   { name := "luminosity", kind := .frac, keys := [[]], nOut := fun _ => 1,
@@ -154,7 +162,7 @@ def f_hsvColor : Family :=
 
 def families : List Family :=
   [f_ycocgr_rt, f_ycocgr_fwd, f_ycocgr_bwd, f_ycocg_fwd, f_ycocg_bwd, f_ycocg_rt, f_ycocg_rt2, f_ycocgrf_rt, f_ycocgrf_rt2,
-   f_lin2srgb, f_lin2srgb_g, f_srgb2lin, f_srgb2lin_g, f_saturation_grey, f_luminosity, f_rgbColor, f_hsvColor]
+   f_lin2srgb, f_lin2srgb_g, f_srgb2lin, f_srgb2lin_g, f_saturation_grey, f_luminosity, f_rgbColor, f_hsvColor, f_saturation3, f_saturation4]
 
 /-- clauses of the property that glm does not satisfy on the pinned tree: recorded findings, proved *false*
     in `Findings/C19.lean`, searched for witnesses by the driver like every other family -/
